@@ -264,6 +264,9 @@ def tensor_binop(it, op, a, b, node):
                     break
     kind = "tensor" if "tensor" in kinds else "ndarray"
     r = it.fresh(t, shape, kind, node)
+    if op in ("Div", "FloorDiv") and tb is not None and isinstance(b, VTens):
+        # every tensor division with its divisor (numeric facet: what magnitude the divisor can reach)
+        it.__dict__.setdefault("tensor_divisions", []).append((it.site(node), tb, tuple(fr.func.qualname for fr in it.frames if fr.func is not None)))
     if op == "Div" and ta is not None and tb is not None and hasattr(ta, "single_mono") and hasattr(tb, "terms"):
         # numeric catalogue: exp(x) / (1 + exp(x)) with an unbounded x is inf / inf = nan for x > 709.78
         sm_ = ta.single_mono()
